@@ -65,7 +65,7 @@ func loadProgram(repo string, overlay map[string][]byte) (*ssa.Program, error) {
 
 func newEngine(prog *ssa.Program) *Engine {
 	eng := &Engine{prog: prog, intrinsics: map[string]intrinsic{}, ipdom: map[*ssa.BasicBlock]*ssa.BasicBlock{}, ipdomDone: map[*ssa.Function]bool{},
-		mergePts: map[*ssa.BasicBlock]*ssa.BasicBlock{}, fnByName: map[string]*ssa.Function{}}
+		mergePts: map[*ssa.BasicBlock]*ssa.BasicBlock{}, fnByName: map[string]*ssa.Function{}, nativeStubs: map[string]*stubSpec{}}
 	for f := range ssautil.AllFunctions(prog) {
 		eng.fnByName[f.String()] = f
 	}
@@ -73,6 +73,7 @@ func newEngine(prog *ssa.Program) *Engine {
 	eng.registerCrypto()
 	eng.registerThreads()
 	eng.registerSyncMap()
+	eng.registerSyncMisc()
 	eng.registerNet()
 	eng.registerASN1()
 	eng.registerJSON()
